@@ -1,6 +1,8 @@
 //! Conformance harness binary `vh-topicsync`: one module per TLA+ specification (see /verif/spec).
 mod topicsync;
 mod wire;
+mod probe;
+mod session;
 mod dedup;
 mod handshake;
 
